@@ -3,6 +3,14 @@
 
 #include <cstdarg>
 #include <sstream>
+#if __has_include(<valgrind/memcheck.h>)
+#include <valgrind/memcheck.h>
+#else
+#define RUNNING_ON_VALGRIND 0
+#define VALGRIND_MAKE_MEM_UNDEFINED(a, n) 0
+#define VALGRIND_MAKE_MEM_DEFINED(a, n) 0
+#define VALGRIND_CHECK_MEM_IS_DEFINED(a, n) 0
+#endif
 
 struct ethernet_address_t { uint8_t a[6]; }; // layout-compatible with lltdProtocol.h (C linkage, 6 bytes)
 
@@ -273,6 +281,9 @@ static void *ledger_alloc(size_t size, int tag) {
     if (!p) abort();
     if (w.plan.memfill == 0xFE) { for (size_t i = 0; i < size; i++) p[i] = (uint8_t)(w.aux.next() >> 24); }
     else memset(p, w.plan.memfill, size);
+    // under valgrind (plain flavour) fresh memory is *undefined*: memcheck then tracks, bit-precisely and through the stack as well,
+    // whether anything that reaches the wire was never written (C02 determinism clause)
+    (void)VALGRIND_MAKE_MEM_UNDEFINED(p, size);
     LedgerRec r;
     r.size = size; r.birth_delivery = w.curd ? w.curd->id : 0; r.tag = tag;
     r.node = -1;
@@ -335,6 +346,15 @@ int lltd_port_send_frame(void *iface_ctx, const void *frame, size_t frame_len) {
     tx.t = w.port_now_ms(); tx.channel = 0; tx.in_tick = w.in_tick != 0;
     tx.data.resize(frame_len);
     if (frame_len) memcpy(tx.data.data(), frame, frame_len); // ASan checks the read of frame_len bytes
+    if (RUNNING_ON_VALGRIND && frame_len) {
+        unsigned long bad = VALGRIND_CHECK_MEM_IS_DEFINED(frame, frame_len);
+        if (bad) {
+            char b[160];
+            snprintf(b, sizeof b, "transmitted frame (opcode %u, %zu bytes) carries bytes that were never written, first at offset %lu", frame_len > 17 ? ((const uint8_t *)frame)[17] : 0u, frame_len, bad - (unsigned long)(uintptr_t)frame);
+            (void)VALGRIND_MAKE_MEM_DEFINED(tx.data.data(), frame_len);
+            w.violate("C02", "uninitialised-bytes-on-wire", b);
+        }
+    }
     uint64_t idx = w.send_index++;
     tx.refused = idx < 64 && ((w.sendfail_mask >> idx) & 1);
     if (tx.refused) { w.st.fault_fired[F_SENDFAIL]++; if (w.curd) w.curd->send_fault_fired = true; }
